@@ -187,11 +187,14 @@ def components (keys : List κ) (edges : List (κ × κ)) : List (List κ) :=
   keys.foldl (fun comps k =>
     if comps.any (fun c => k ∈ c) then comps else comps ++ [closure edges keys.length [k]]) []
 
-def leResid (a b : ResNode κ) : Bool := a.resid ≤ b.resid
+/-- insert before the first node with a strictly greater resid -/
+def insertByResid (a : ResNode κ) : List (ResNode κ) → List (ResNode κ)
+  | [] => [a]
+  | b :: rest => if a.resid < b.resid then a :: b :: rest else b :: insertByResid a rest
 
-/-- `sorted(..., key=resid)`: stable; with pairwise distinct resids the result does not depend on the
-order of the input (Python compares the node keys only on resid ties) -/
-def sortByResid (ns : List (ResNode κ)) : List (ResNode κ) := ns.mergeSort leResid
+/-- `sorted(..., key=resid)`: stable (insertion sort); with pairwise distinct resids the result does not
+depend on the order of the input (Python compares the node keys only on resid ties) -/
+def sortByResid (ns : List (ResNode κ)) : List (ResNode κ) := ns.foldr insertByResid []
 
 end graph
 
@@ -399,7 +402,7 @@ def applyOp (s : LinkSt) : LinkOp → LinkSt
 members of the key tuple, which include the version number.) -/
 def flush (s : LinkSt) : List Ixn :=
   (s.table.filter fun kv =>
-    !(kv.1.atoms.any (· ∈ s.removed)) && !((kv.1.version.toNat?).any (· ∈ s.removed))).map (·.2)
+    s.removed.all fun r => !(kv.1.atoms.contains r) && !(kv.1.version.toNat? == some r)).map (·.2)
 
 /-- block interactions carried through link application; `genExcl` are the exclusions `expand_excl`
 appends afterwards (C14's subject, a parameter here) -/
